@@ -250,22 +250,28 @@ Definition proj_eqb (n : nat) (model impl : list levels) : bool :=
 
 Definition event := (op * out * list levels)%type.
 
-Fixpoint replay (s : state) (n : nat) (evs : list event) : nat :=
+(* index (from 1) of the first logged section the model cannot reproduce; after the last one the
+   run of the implementation is over (loop drained): no give-back may be left scheduled in the
+   model and the final levels must agree; 0 = all fine *)
+Fixpoint replay (s : state) (n : nat) (evs : list event) (final : list levels) : nat :=
   match evs with
-  | [] => O
+  | [] => match gbq s with
+          | [] => if proj_eqb (nkeys s) (pools s) final then O else S n
+          | _ => S n
+          end
   | (o, r, p) :: rest =>
       let (s', r') := step s o in
-      if out_eqb r r' && proj_eqb (nkeys s) (pools s') p then replay s' (S n) rest else S n
+      if out_eqb r r' && proj_eqb (nkeys s) (pools s') p then replay s' (S n) rest final else S n
   end.
 
-(* a case: number of keys, Capacities?, initial levels, logged sections *)
-Definition bcase := (nat * bool * levels * list event)%type.
+(* a case: number of keys, Capacities?, initial levels, logged sections, final levels *)
+Definition bcase := (nat * bool * levels * list event * list levels)%type.
 
 Fixpoint bad_idx (n : nat) (l : list bcase) : list nat :=
   match l with
   | [] => []
-  | (nk, c, lv, evs) :: rest =>
-      match replay (init nk (if c then Some lv else None) lv) O evs with
+  | (nk, c, lv, evs, fin) :: rest =>
+      match replay (init nk (if c then Some lv else None) lv) O evs fin with
       | O => bad_idx (S n) rest
       | k => n :: k :: bad_idx (S n) rest
       end
